@@ -881,6 +881,10 @@ def einsum(spec, *ops, **kw):
             raise Unsupported(f"einsum keyword {name}")
     pet = _kind_from_dtype(kw.get("preferred_element_type"))
     ops = [_obj(o) for o in ops]
+    if pet in ("f", "i", "b"):
+        # JAX converts the OPERANDS to the preferred element type (observed: complex operands lose their imaginary parts
+        # before the contraction, not after it)
+        ops = [_narrow(o, pet) for o in ops]
     spec = spec.replace(" ", "")
     if "->" not in spec:
         raise Unsupported("implicit-output einsum")
@@ -1314,16 +1318,59 @@ def linspace(start, stop, num=50):
     return array(_np.linspace(float(start), float(stop), int(num)))
 
 
-def _derived_angle(build):
-    """a fresh angle phi with atoms (cos phi, sin phi) tied to symbolic data by `build(c, s) -> list of formulas`"""
+def _derived_angle(build, m=1):
+    """a fresh angle phi with atoms (cos phi/m, sin phi/m) tied to symbolic data by `build(c, s) -> list of formulas`"""
     n = len(core.CTX.names)
-    t = core.angle(f"dang{n}", 1)
+    t = core.angle(f"dang{n}", m)
     tv = next(iter(t.vars()))
     _m, c, s = core.CTX.angles[tv]
     extra = build(Poly.var(c), Poly.var(s))
     core.CTX.defs[c] = list(core.CTX.defs[c]) + list(extra)
     core.CTX.defs[s] = core.CTX.defs[c]
     return SC(t), c, s
+
+
+def mod(a, n):
+    """x mod n.  Constants: numeric.  A symbolic ANGLE theta (atoms cos/sin of theta/m, m in {1, 2}) modulo 2*pi: a derived
+    angle phi in [0, 2*pi) with the same cos/sin as theta; for m = 2 the half-angle atoms of phi are +-(those of theta) with
+    sin(phi/2) >= 0 (and phi/2 != pi) - exactly the sign flip R(theta + 2*pi) = -R(theta) of half-angle formulas."""
+    def f(x, y):
+        if x.im.t or y.im.t:
+            raise Unsupported("mod of complex argument")
+        if x.is_const() and y.is_const():
+            return SC.lift(math.fmod(math.fmod(float(x.re.cval()), float(y.re.cval())) + float(y.re.cval()), float(y.re.cval())))
+        if not (y.is_const() and builtins.abs(float(y.re.cval()) - 2 * math.pi) < 1e-12):
+            raise Unsupported("mod of a symbolic value by something other than 2*pi")
+        terms = x.re.t
+        if len(terms) != 1:
+            raise Unsupported("mod of a symbolic expression that is not a single angle")
+        (mono, coef), = terms.items()
+        if len(mono) != 1 or mono[0][1] != 1 or mono[0][0] not in core.CTX.angles or coef != 1:
+            raise Unsupported("mod of a symbolic expression that is not a single angle")
+        mm, cv, sv = core.CTX.angles[mono[0][0]]
+        c0, s0 = Poly.var(cv), Poly.var(sv)
+        if mm == 1:
+            ang, c, s_ = _derived_angle(lambda cp, sp: [f_cmp(cp - c0, "=="), f_cmp(sp - s0, "==")], 1)
+        elif mm == 2:
+            def build(cp, sp):
+                same = f_and(f_cmp(cp - c0, "=="), f_cmp(sp - s0, "=="))
+                flip = f_and(f_cmp(cp + c0, "=="), f_cmp(sp + s0, "=="))
+                rng = f_or(f_cmp(sp, ">"), f_and(f_cmp(sp, "=="), f_cmp(cp - core.ONE, "==")))
+                return [f_or(same, flip), rng]
+
+            ang, c, s_ = _derived_angle(build, 2)
+        else:
+            raise Unsupported("mod of an angle with resolution finer than 1/2")
+        return ang
+
+    A, N = _np.broadcast_arrays(_obj(a), _obj(n))
+    out = _np.empty(A.shape, dtype=object)
+    for idx in _np.ndindex(A.shape):
+        out[idx] = f(A[idx], N[idx])
+    return ndarray(out, "f")
+
+
+remainder = mod
 
 
 def arctan(a):
